@@ -486,7 +486,7 @@ func (ca *cursorAnalysis) lb(v *cellVer, b *ssa.BasicBlock, inprog map[*cellVer]
 			_, syms, _ := ca.ownFacts(v.parent, v.blk)
 			s := stripConv(v.advSym)
 			for _, f := range syms {
-				if f.sym == s && f.adj > d {
+				if sameSym(f.sym, s, 0) && f.adj > d {
 					d = f.adj
 				}
 			}
@@ -594,6 +594,21 @@ func (ca *cursorAnalysis) unkGuard(v *cellVer, b *ssa.BasicBlock, depth int) boo
 		return true
 	}
 	if v.kind == "adv" {
+		if v.adv < 0 {
+			// a symbolic advance: a symbolic guard on the parent that does not name the same quantity
+			// constrains the remainder in a way this analysis cannot use
+			_, syms, _ := ca.ownFacts(v.parent, v.blk)
+			matched := false
+			for _, f := range syms {
+				if sameSym(f.sym, stripConv(v.advSym), 0) {
+					matched = true
+				}
+			}
+			if len(syms) > 0 && !matched {
+				return true
+			}
+			return false // the remainder after a variable advance starts a new region
+		}
 		return ca.unkGuard(v.parent, v.blk, depth+1)
 	}
 	if v.kind == "phi" {
@@ -624,6 +639,10 @@ func (ca *cursorAnalysis) classify(s *CursorSite, v *cellVer, b *ssa.BasicBlock)
 	if rel, ok := ca.relOf(v, 0); ok {
 		s.Class, s.Req = "REQ", rel+s.Need
 		s.Why = fmt.Sprintf("needs %d bytes of the cell at function entry (no guard in this function)", rel+s.Need)
+		return
+	}
+	if ca.correlatedGuard(v, b) {
+		s.Class, s.Why = "UNK", "a length test on an earlier state of the cursor holds only on some of the paths that reach this point"
 		return
 	}
 	if ca.arbitrary(v, map[*cellVer]bool{}) {
@@ -752,4 +771,142 @@ func AnalyzeCursors(fn *ssa.Function, root *RootInfo, sums map[*ssa.Function]*Cu
 	}
 	sort.SliceStable(sites, func(i, j int) bool { return sites[i].Ins.Pos() < sites[j].Ins.Pos() })
 	return sites, out, passArb
+}
+
+// sameSym: two integer expressions denote the same quantity: the same SSA
+// value, or structurally equal trees of conversions, arithmetic, field loads
+// and calls of the same static callee on the same arguments (methods used for
+// lengths here are pure).
+func sameSym(a, b ssa.Value, depth int) bool {
+	a, b = stripConv(a), stripConv(b)
+	if a == b {
+		return true
+	}
+	if depth > 6 {
+		return false
+	}
+	switch x := a.(type) {
+	case *ssa.Const:
+		if y, ok := b.(*ssa.Const); ok {
+			ka, okA := constInt(x)
+			kb, okB := constInt(y)
+			return okA && okB && ka == kb
+		}
+	case *ssa.BinOp:
+		if y, ok := b.(*ssa.BinOp); ok && x.Op == y.Op {
+			return sameSym(x.X, y.X, depth+1) && sameSym(x.Y, y.Y, depth+1)
+		}
+	case *ssa.UnOp:
+		if y, ok := b.(*ssa.UnOp); ok && x.Op == y.Op && x.Op == token.MUL {
+			// loads of the same address expression
+			return sameAddr(x.X, y.X, depth+1)
+		}
+	case *ssa.Call:
+		y, ok := b.(*ssa.Call)
+		if !ok {
+			return false
+		}
+		fx, fy := x.Call.StaticCallee(), y.Call.StaticCallee()
+		if fx == nil || fx != fy || len(x.Call.Args) != len(y.Call.Args) {
+			if bx, ok := x.Call.Value.(*ssa.Builtin); ok {
+				if by, ok := y.Call.Value.(*ssa.Builtin); ok && bx.Name() == by.Name() && bx.Name() == "len" {
+					return sameSym(x.Call.Args[0], y.Call.Args[0], depth+1)
+				}
+			}
+			return false
+		}
+		for i := range x.Call.Args {
+			if !sameSym(x.Call.Args[i], y.Call.Args[i], depth+1) {
+				return false
+			}
+		}
+		return true
+	}
+	return false
+}
+
+func sameAddr(a, b ssa.Value, depth int) bool {
+	if a == b {
+		return true
+	}
+	if depth > 6 {
+		return false
+	}
+	fa, ok1 := a.(*ssa.FieldAddr)
+	fb, ok2 := b.(*ssa.FieldAddr)
+	if ok1 && ok2 && fa.Field == fb.Field {
+		return sameAddr(fa.X, fb.X, depth+1) || sameSym(fa.X, fb.X, depth+1)
+	}
+	return false
+}
+
+// region: the versions whose length determines that of v by constant
+// advances and merges (stops at the entry, at variable advances, calls and
+// fresh values).
+func (ca *cursorAnalysis) region(v *cellVer, out map[*cellVer]bool) {
+	if v == nil || out[v] {
+		return
+	}
+	out[v] = true
+	switch v.kind {
+	case "adv":
+		if v.adv >= 0 {
+			ca.region(v.parent, out)
+		}
+	case "phi":
+		for _, in := range v.ins {
+			ca.region(in, out)
+		}
+	}
+}
+
+// correlatedGuard: some branch condition in the function tests the length of
+// a version in v's region but does not dominate block b, so what it
+// establishes is known only along some paths.
+func (ca *cursorAnalysis) correlatedGuard(v *cellVer, b *ssa.BasicBlock) bool {
+	reg := map[*cellVer]bool{}
+	ca.region(v, reg)
+	for _, blk := range ca.fn.Blocks {
+		if !ca.live[blk] || len(blk.Instrs) == 0 {
+			continue
+		}
+		iff, ok := blk.Instrs[len(blk.Instrs)-1].(*ssa.If)
+		if !ok {
+			continue
+		}
+		f, ok := ca.lenFactOf(iff.Cond, true)
+		if !ok || f.load == nil || !reg[ca.loadVer[f.load]] {
+			continue
+		}
+		if blk == b || blk.Dominates(b) {
+			// dominating: already used through ownFacts when one of its edges leads here;
+			// if neither successor dominates b the test's outcome is not known at b
+			if blk.Succs[0].Dominates(b) || blk.Succs[1].Dominates(b) || blk.Succs[0] == b || blk.Succs[1] == b {
+				continue
+			}
+			return true
+		}
+		// a test that can reach b without dominating it
+		reach := false
+		seen := map[*ssa.BasicBlock]bool{}
+		var dfs func(x *ssa.BasicBlock)
+		dfs = func(x *ssa.BasicBlock) {
+			if seen[x] || reach {
+				return
+			}
+			seen[x] = true
+			if x == b {
+				reach = true
+				return
+			}
+			for _, s := range x.Succs {
+				dfs(s)
+			}
+		}
+		dfs(blk)
+		if reach {
+			return true
+		}
+	}
+	return false
 }
